@@ -197,6 +197,8 @@ fn main() {
 		match std::panic::catch_unwind(std::panic::AssertUnwindSafe(|| run_property(&ctx))) {
 			Ok(Some((level, mut report))) => {
 				// thorough tier: fixed-size libFuzzer campaigns (ASan, debug assertions) over the same check functions
+				// replay tier: saved reproducers of earlier findings
+				regress::run(&ctx, &mut report);
 				fuzz::run_for_property(&ctx, &mut report, 2_000_000);
 				finish(&ctx, level, report)
 			},
